@@ -459,6 +459,9 @@ func (e *Env) call(x *ast.CallExpr) *Term {
 		}
 		ref = e.g.withType(ref, types.NewPointer(ty))
 		return e.field(ref, fnm)
+	case "fnval":
+		// fnval("f$1"): the function value of a package-level function or function literal (same constant the VC generator uses)
+		return Const(e.g.autoFun("fn_"+e.strArg(x.Args[0]), SInt), SInt)
 	case "typeid":
 		tn := e.strArg(x.Args[0])
 		ptr := strings.HasPrefix(tn, "*")
